@@ -278,7 +278,10 @@ func (i *IVFWriter) writeAV1(packet *rtp.Packet, timestamp uint64) error {
 		i.av1Depacketizer = &codecs.AV1Depacketizer{}
 	}
 
-	payload, err := i.av1Depacketizer.Unmarshal(packet.Payload)
+	// AV1Depacketizer keeps the first fragment of an OBU that continues in the
+	// next packet as a sub-slice of its argument, so it must not be given memory
+	// the caller is free to reuse once WriteRTP has returned.
+	payload, err := i.av1Depacketizer.Unmarshal(append([]byte(nil), packet.Payload...))
 	if err != nil {
 		return err
 	}
